@@ -275,6 +275,22 @@ def check_isosteric(ctx):
                     ctx.violate(core.make_violation({'check': 'unit-invariance', 'entry': 'isosteric_enthalpy', 'converted': cls},
                                                     f'isosteric_enthalpy on the BAX-1500 set stored as {(pm, pu, lb, lu, tu)}: {o.value["isosteric_enthalpy"] if o.ok else o.brief()} instead of {b0.value["isosteric_enthalpy"]}',
                                                     {'rep': (pm, pu, lb, lu, tu)}))
+    # the same objects analysed, converted in place (unit only / basis), analysed again
+    for conv, lb, lu in ((dict(loading_unit='mol'), 'molar', 'mol'), (dict(loading_basis='mass', loading_unit='mg'), 'mass', 'mg'), (dict(pressure_unit='kPa'), 'molar', 'mmol')):
+        objs = [clone(i) for i in isos]
+        core.call(pgc.isosteric_enthalpy, objs, loading_points=[0.5, 1.0, 2.0, 3.0])
+        for o_ in objs:
+            o_.convert(**conv)
+        c = ru.ads_consts('n-Butane', objs[0].temperature)
+        with ru.library_tables():
+            lp = [float(ru.c_loading(x, 'molar', 'mmol', lb, lu, c)) for x in (0.5, 1.0, 2.0, 3.0)]
+        o = core.call(pgc.isosteric_enthalpy, objs, loading_points=lp)
+        ev += 1
+        nt += 1
+        if b0.ok and (not o.ok or core.relerr(o.value['isosteric_enthalpy'], b0.value['isosteric_enthalpy']) > 1e-6):
+            ctx.violate(core.make_violation({'check': 'analysis-convert-analysis', 'entry': 'isosteric_enthalpy'},
+                                            f'isosteric_enthalpy, then convert({conv}) on the same isotherm objects, then isosteric_enthalpy again: '
+                                            f'{o.value["isosteric_enthalpy"] if o.ok else o.brief()[:160]} instead of {b0.value["isosteric_enthalpy"]}', {'conversion': conv}))
     ctx.add('isosteric_enthalpy', ev, nt)
 
 
@@ -312,6 +328,19 @@ def check_alpha_reference(ctx):
                 seen.add(k)
                 ctx.violate(core.make_violation(sig, f'alpha_s with the {who} stored as {(pm, pu, lb, lu)}: {({k: o.value[k] for k in ("slope", "area")} if o.ok else o.brief()[:160])} '
                                                      f'instead of {({k: b0.value[k] for k in ("slope", "area")})}', {'converted': who, 'rep': (pm, pu, lb, lu)}))
+    # the same reference object used, converted in place within the representations alpha_s supports, used again
+    for conv in (dict(loading_unit='mol'), dict(loading_unit='cm3(STP)')):
+        s_, r_ = clone(sample0), clone(ref0)
+        core.call(lambda: pgc.alpha_s(s_, r_, t_limits=(0.4, 1.1)))
+        r_.convert(**conv)
+        o = core.call(lambda: pgc.alpha_s(s_, r_, t_limits=(0.4, 1.1))['results'][0])
+        ev += 1
+        nt += 1
+        dev = max(abs(o.value[k] - b0.value[k]) / abs(b0.value[k]) for k in ('slope', 'area')) if o.ok else float('inf')
+        if dev > TOL_LIN:
+            ctx.violate(core.make_violation({'check': 'analysis-convert-analysis', 'entry': 'alpha_s'},
+                                            f'alpha_s, then reference.convert({conv}), then alpha_s again with the same objects: '
+                                            f'{({k: o.value[k] for k in ("slope", "area")} if o.ok else o.brief()[:160])} instead of {({k: b0.value[k] for k in ("slope", "area")})}', {'conversion': conv}))
     ctx.add('alpha_s_reference_representations', ev, nt)
 
 
